@@ -499,7 +499,7 @@ def _inline_block(stmts, helpers, in_class, caller, state):
                         ([tg.id] if isinstance(tg, ast.Name) else None)
                     rn = [x.id for x in hret.elts] if isinstance(hret, ast.Tuple) and all(isinstance(x, ast.Name) for x in hret.elts) else \
                         ([hret.id] if isinstance(hret, ast.Name) else None)
-                    if tn is not None and tn == rn:
+                    if tn is not None and tn == rn and not (set(tn) & set(_params(h.fn))):
                         used_before = set(x.id for prev in out for x in ast.walk(prev) if isinstance(x, ast.Name))
                         if not (set(tn) & used_before):
                             keep = tuple(tn)
